@@ -418,62 +418,8 @@ theorem sp_encode_neg_zero :
     of 2^-24), `convert .hp` of it gave `0x0000`, and `0x03FF ↦ 0x00FF` (the former `hp_subnormal_value_counterexample` /
     `hp_subnormal_roundtrip_counterexample`). -/
 
-/-- one half subnormal `m` (sign `s`): decodes to an FPNum with `x.m · 2^(x.e+24) = m · x.p` (i.e. value m·2^-24), right sign,
-    and converts back to the same pattern -/
-def hpSubOK (s m : Nat) : Bool :=
-  match FPNum.from_ieee754 .hp ((s * 2^15 + m : Nat) : Int) with
-  | none => false
-  | some x =>
-    x.s == (if s == 0 then 1 else -1) && decide (0 < x.p) && decide (0 ≤ x.e + 24) &&
-    x.m * 2 ^ (x.e + 24).toNat == (m : Int) * x.p && !x.infinity && !x.nan &&
-    x.convert .hp == some ((s * 2^15 + m : Nat) : Int)
-set_option maxRecDepth 100000 in
-/-- exhaustive over the finite class: all 2·1024 half patterns with exponent field 0 (both zeros and all 2046 subnormals) -/
-theorem hp_subnormal_table : ∀ s : Fin 2, ∀ m : Fin 1024, hpSubOK s.val m.val = true := by decide +kernel
-
-/-- every half subnormal (and zero), either sign: decodes to a finite FPNum denoting exactly ±m·2^-24 and converts back to
-    the same bit pattern -/
-theorem hp_subnormal_spec (s m : Nat) (hs : s < 2) (hm : m < 1024) :
-    ∃ x, FPNum.from_ieee754 .hp ((s * 2^15 + m : Nat) : Int) = some x ∧ x.Finite ∧
-      x.value = (if s = 0 then 1 else -1) * (m : Rat) * (2:Rat) ^ (-24 : Int) ∧
-      x.convert .hp = some ((s * 2^15 + m : Nat) : Int) := by
-  have t := hp_subnormal_table ⟨s, hs⟩ ⟨m, hm⟩
-  unfold hpSubOK at t
-  simp only at t
-  cases hx : FPNum.from_ieee754 .hp ((s * 2^15 + m : Nat) : Int) with
-  | none => rw [hx] at t; simp at t
-  | some x =>
-    rw [hx] at t
-    simp only [Bool.and_eq_true, beq_iff_eq, decide_eq_true_eq, Bool.not_eq_true'] at t
-    obtain ⟨⟨⟨⟨⟨⟨h1, h2⟩, h3⟩, h4⟩, h5⟩, h6⟩, h7⟩ := t
-    refine ⟨x, rfl, ⟨?_, ?_, h2, h5, h6⟩, ?_, h7⟩
-    · rw [h1]; split <;> simp
-    · -- 0 ≤ x.m from x.m * 2^k = m * p ≥ 0
-      have hk : (0:Int) < 2 ^ (x.e + 24).toNat := Int.pow_pos (by decide)
-      have : 0 ≤ (m : Int) * x.p := Int.mul_nonneg (by omega) (by omega)
-      rcases Int.lt_trichotomy x.m 0 with c | c | c
-      · have := Int.mul_neg_of_neg_of_pos c hk; omega
-      · omega
-      · omega
-    · unfold FPNum.value
-      have he : x.e = ((x.e + 24).toNat : Int) + (-24) := by omega
-      have hz : (2:Rat) ^ x.e = (2:Rat) ^ (x.e + 24).toNat * (2:Rat) ^ (-24 : Int) := by
-        conv => lhs; rw [he]
-        rw [Rat.zpow_add (by decide), Rat.zpow_natCast]
-      have hp' : (x.p : Rat) ≠ 0 := by simp; omega
-      have hk' : (2:Rat) ^ (x.e + 24).toNat ≠ 0 := by
-        have : (0:Rat) < (2:Rat) ^ (x.e + 24).toNat := Rat.pow_pos (by decide)
-        grind
-      have h4' : (x.m : Rat) * (2:Rat) ^ (x.e + 24).toNat = (m : Rat) * (x.p : Rat) := by
-        have := congrArg (fun z : Int => (z : Rat)) h4
-        simpa [Rat.intCast_mul, Rat.intCast_pow, Rat.intCast_natCast] using this
-      have hs' : (x.s : Rat) = (if s = 0 then 1 else -1) := by
-        rw [h1]; split <;> simp
-      rw [hz, hs']
-      generalize (2:Rat) ^ (x.e + 24).toNat = K at *
-      generalize (2:Rat) ^ (-24 : Int) = T
-      have : (x.m : Rat) / (x.p : Rat) = (m : Rat) / K := by grind
-      grind
+/- (an exhaustive `decide +kernel` table over the 2·1024 half patterns with exponent field 0 stood here; it is superseded by the
+   parametric theorems `fpnum_from_hp_value` and `fpnum_roundtrip_hp` below, which cover all 2^16 half patterns) -/
 
 example : IEEE.decode IEEE.half 0x0001 = .fin false ⟨1, -24⟩ := by decide
 example : FPNum.from_ieee754 .hp 0x0001 = some { s := 1, e := -24, m := 1024, p := 1024 } := by decide
@@ -618,5 +564,315 @@ theorem fpnum_roundtrip_hp (b : Nat) (hb : b < 2^16) (hnan : IEEE.isNaN IEEE.hal
 
 example : (FPNum.from_ieee754 .hp 0x0001).bind (fun x => x.convert .hp) = some 0x0001 := by decide
 example : (FPNum.from_ieee754 .sp 0xFF800000).bind (fun x => x.convert .sp) = some 0xFF800000 := by decide
+
+/-! #### what `FPNum(b, fmt)` denotes: the rational the standard assigns to `b` (`IEEE.decode`), for every finite pattern -/
+
+/-- **decoding agrees with the standard, single precision**: for every finite pattern (exponent field ≠ 255), `FPNum(b,'sp')`
+    is a finite FPNum denoting exactly the rational that IEEE 754 assigns to `b` -/
+theorem fpnum_from_sp_value (b : Nat) (hfin : IEEE.expOf IEEE.single b ≠ 2^8 - 1) :
+    ∃ x, FPNum.from_ieee754 .sp (b : Int) = some x ∧ x.Finite ∧ x.value = (IEEE.decode IEEE.single b).toRat := by
+  unfold IEEE.expOf IEEE.single at hfin
+  simp only at hfin
+  obtain ⟨x, hx, hf, hv⟩ := from_parts_value 0xFF (-126) 127 23 (b / 2^31 % 2) (b / 2^23 % 2^8) (b % 2^23)
+    (by omega) (by omega) (by omega)
+  refine ⟨x, ?_, hf, ?_⟩
+  · unfold FPNum.from_ieee754 FPNum.from_ieee754_sp unpack_ieee754_sp_parts
+    simp only [shr_nat, shl_one, show ((0xFF:Int)) = (2:Int)^8 - 1 by decide, land_mask_nat, land_one_nat]
+    rw [show ((2:Int)^8 - 1) = (0xFF : Int) by decide, hx]
+  · rw [hv]
+    unfold IEEE.decode IEEE.signOf IEEE.expOf IEEE.manOf IEEE.Format.bias IEEE.single PyFloat.toRat
+    have e31 : b / 2^(8+23) = b / 2^31 := rfl
+    simp only [e31]
+    have hfin' : (b / 2^23 % 2^8 == 2^8 - 1) = false := by simp; omega
+    simp only [hfin', Bool.false_eq_true, if_false]
+    have hsgn : (if (b / 2^31 % 2 == 1) = true then (-1:Rat) else 1) = (if b / 2^31 % 2 = 0 then 1 else -1 : Rat) := by
+      rcases (show b / 2^31 % 2 = 0 ∨ b / 2^31 % 2 = 1 by omega) with c | c <;> simp [c]
+    by_cases ce : b / 2^23 % 2^8 = 0
+    · simp only [ce, beq_self_eq_true, if_true]
+      by_cases cm : b % 2^23 = 0
+      · simp [cm, Dy.toRat]
+      · have : (b % 2^23 == 0) = false := by simp [cm]
+        simp only [this, Bool.false_eq_true, if_false, hsgn]
+        congr 2
+    · have : (b / 2^23 % 2^8 == 0) = false := by simp [ce]
+      simp only [this, Bool.false_eq_true, if_false, ce, hsgn]
+      congr 2
+/-- **decoding agrees with the standard, double precision**: for every finite pattern (exponent field ≠ 2047), `FPNum(b,'dp')`
+    is a finite FPNum denoting exactly the rational that IEEE 754 assigns to `b` -/
+theorem fpnum_from_dp_value (b : Nat) (hfin : IEEE.expOf IEEE.double b ≠ 2^11 - 1) :
+    ∃ x, FPNum.from_ieee754 .dp (b : Int) = some x ∧ x.Finite ∧ x.value = (IEEE.decode IEEE.double b).toRat := by
+  unfold IEEE.expOf IEEE.double at hfin
+  simp only at hfin
+  obtain ⟨x, hx, hf, hv⟩ := from_parts_value 0x7FF (-1022) 1023 52 (b / 2^63 % 2) (b / 2^52 % 2^11) (b % 2^52)
+    (by omega) (by omega) (by omega)
+  refine ⟨x, ?_, hf, ?_⟩
+  · unfold FPNum.from_ieee754 FPNum.from_ieee754_dp unpack_ieee754_dp_parts
+    simp only [shr_nat, shl_one, show ((0x7FF:Int)) = (2:Int)^11 - 1 by decide, land_mask_nat, land_one_nat]
+    rw [show ((2:Int)^11 - 1) = (0x7FF : Int) by decide, hx]
+  · rw [hv]
+    unfold IEEE.decode IEEE.signOf IEEE.expOf IEEE.manOf IEEE.Format.bias IEEE.double PyFloat.toRat
+    have esh : b / 2^(11+52) = b / 2^63 := rfl
+    simp only [esh]
+    have hfin' : (b / 2^52 % 2^11 == 2^11 - 1) = false := by simp; omega
+    simp only [hfin', Bool.false_eq_true, if_false]
+    have hsgn : (if (b / 2^63 % 2 == 1) = true then (-1:Rat) else 1) = (if b / 2^63 % 2 = 0 then 1 else -1 : Rat) := by
+      rcases (show b / 2^63 % 2 = 0 ∨ b / 2^63 % 2 = 1 by omega) with c | c <;> simp [c]
+    by_cases ce : b / 2^52 % 2^11 = 0
+    · simp only [ce, beq_self_eq_true, if_true]
+      by_cases cm : b % 2^52 = 0
+      · simp [cm, Dy.toRat]
+      · have : (b % 2^52 == 0) = false := by simp [cm]
+        simp only [this, Bool.false_eq_true, if_false, hsgn]
+        congr 2
+    · have : (b / 2^52 % 2^11 == 0) = false := by simp [ce]
+      simp only [this, Bool.false_eq_true, if_false, ce, hsgn]
+      congr 2
+/-- **decoding agrees with the standard, half precision**: for every finite pattern (exponent field ≠ 31), `FPNum(b,'hp')`
+    is a finite FPNum denoting exactly the rational that IEEE 754 assigns to `b` -/
+theorem fpnum_from_hp_value (b : Nat) (hfin : IEEE.expOf IEEE.half b ≠ 2^5 - 1) :
+    ∃ x, FPNum.from_ieee754 .hp (b : Int) = some x ∧ x.Finite ∧ x.value = (IEEE.decode IEEE.half b).toRat := by
+  unfold IEEE.expOf IEEE.half at hfin
+  simp only at hfin
+  obtain ⟨x, hx, hf, hv⟩ := from_parts_value 0x1F (-14) 15 10 (b / 2^15 % 2) (b / 2^10 % 2^5) (b % 2^10)
+    (by omega) (by omega) (by omega)
+  refine ⟨x, ?_, hf, ?_⟩
+  · unfold FPNum.from_ieee754 FPNum.from_ieee754_hp unpack_ieee754_hp_parts
+    simp only [shr_nat, shl_one, show ((0x1F:Int)) = (2:Int)^5 - 1 by decide, land_mask_nat, land_one_nat]
+    rw [show ((2:Int)^5 - 1) = (0x1F : Int) by decide, hx]
+  · rw [hv]
+    unfold IEEE.decode IEEE.signOf IEEE.expOf IEEE.manOf IEEE.Format.bias IEEE.half PyFloat.toRat
+    have esh : b / 2^(5+10) = b / 2^15 := rfl
+    simp only [esh]
+    have hfin' : (b / 2^10 % 2^5 == 2^5 - 1) = false := by simp; omega
+    simp only [hfin', Bool.false_eq_true, if_false]
+    have hsgn : (if (b / 2^15 % 2 == 1) = true then (-1:Rat) else 1) = (if b / 2^15 % 2 = 0 then 1 else -1 : Rat) := by
+      rcases (show b / 2^15 % 2 = 0 ∨ b / 2^15 % 2 = 1 by omega) with c | c <;> simp [c]
+    by_cases ce : b / 2^10 % 2^5 = 0
+    · simp only [ce, beq_self_eq_true, if_true]
+      by_cases cm : b % 2^10 = 0
+      · simp [cm, Dy.toRat]
+      · have : (b % 2^10 == 0) = false := by simp [cm]
+        simp only [this, Bool.false_eq_true, if_false, hsgn]
+        congr 2
+    · have : (b / 2^10 % 2^5 == 0) = false := by simp [ce]
+      simp only [this, Bool.false_eq_true, if_false, ce, hsgn]
+      congr 2
+
+example : (IEEE.decode IEEE.half 0x0001).toRat = (1:Rat) * ((1:Int) : Rat) * (2:Rat)^(-24 : Int) := by
+  simp [IEEE.decode, IEEE.signOf, IEEE.expOf, IEEE.manOf, IEEE.half, IEEE.Format.bias, PyFloat.toRat, Dy.toRat]
+
+/-! #### widening conversions are exact (hp → sp, hp → dp, sp → dp).  Generic argument: `widen_fields` (Proofs/C12Conv.lean):
+     a decoded finite non-zero number is normalised (`adjust_semp_shape`), is a NORMAL number of every wider format
+     (`shape_exp_bounds`), and `convertFinite_exact_normal` only shifts its fraction bits up. -/
+
+/-- **widening half → single is exact**: for every non-NaN half pattern `b`, `FPNum(b,'hp').convert('sp')` is a 32-bit pattern with the
+    same sign bit; infinities map to the infinity of the same sign; every finite `b` maps to a finite pattern denoting the same
+    rational (so ±0 ↦ ±0, and half subnormals become single normals of equal value) -/
+theorem fpnum_widen_hp_sp (b : Nat) (hnan : IEEE.isNaN IEEE.half b = false) :
+    ∃ x, ∃ b2 : Nat, FPNum.from_ieee754 .hp (b : Int) = some x ∧ x.convert .sp = some (b2 : Int) ∧ b2 < 2^32 ∧
+      IEEE.signOf IEEE.single b2 = IEEE.signOf IEEE.half b ∧
+      (IEEE.expOf IEEE.half b = 2^5 - 1 → IEEE.decode IEEE.single b2 = IEEE.decode IEEE.half b) ∧
+      (IEEE.expOf IEEE.half b ≠ 2^5 - 1 → IEEE.expOf IEEE.single b2 ≠ 2^8 - 1 ∧
+          (IEEE.decode IEEE.single b2).toRat = (IEEE.decode IEEE.half b).toRat) := by
+  have hn : b / 2^10 % 2^5 = 31 → b % 2^10 = 0 := isNaN_false IEEE.half b hnan
+  have hsrc : IEEE.signOf IEEE.half b = b / 2^15 % 2 ∧ IEEE.expOf IEEE.half b = b / 2^10 % 2^5 ∧ IEEE.manOf IEEE.half b = b % 2^10 :=
+    ⟨rfl, rfl, rfl⟩
+  obtain ⟨x, E2, M2, hx, hc, hM20, hM21, hcase⟩ := widen_fields 0x1F (-14) 15 127 0xFF 10 23 IEEE754_SP_NAN_MANTISA
+    (b / 2^15 % 2) (b / 2^10 % 2^5) (b % 2^10) (by omega) (by omega) (by omega) (by intro h; apply hn; omega)
+    (by decide) (by decide) (by decide) (by decide) (by decide) (by decide)
+  have hxfrom : FPNum.from_ieee754 .hp (b : Int) = some x := by
+    unfold FPNum.from_ieee754 FPNum.from_ieee754_hp unpack_ieee754_hp_parts
+    simp only [shr_nat, shl_one, show ((0x1F:Int)) = (2:Int)^5 - 1 by decide, land_mask_nat, land_one_nat]
+    rw [show ((2:Int)^5 - 1) = (0x1F : Int) by decide, hx]
+  have hE2 : 0 ≤ E2 ∧ E2 ≤ 255 := by
+    rcases hcase with ⟨_, h, _⟩ | ⟨_, _, _, h, _⟩ | ⟨_, _, h1, h2, _⟩ <;> omega
+  obtain ⟨E2n, rfl⟩ := Int.eq_ofNat_of_zero_le hE2.1
+  obtain ⟨M2n, rfl⟩ := Int.eq_ofNat_of_zero_le hM20
+  have hM2n : M2n < 2^23 := by
+    have : ((M2n : Nat) : Int) < ((2^23 : Nat) : Int) := by simpa using hM21
+    exact Int.ofNat_lt.mp this
+  have hE2n : E2n < 2^8 := by omega
+  have hS : b / 2^15 % 2 < 2 := by omega
+  obtain ⟨f1, f2, f3⟩ := fields_of_sp (b / 2^15 % 2) E2n M2n hS hE2n hM2n
+  refine ⟨x, (b / 2^15 % 2) * 2^31 + E2n * 2^23 + M2n, hxfrom, ?_, by omega, by rw [f1, hsrc.1], ?_, ?_⟩
+  · simp only [FPNum.convert, fmtConsts, shl_one, IEEE754_SP_INF_MANTISA]
+    rw [hc]
+    simp only [Option.map, pack, gen_pack_sp_eq]
+    refine congrArg some ?_
+    omega
+  · intro he
+    rw [hsrc.2.1] at he
+    rcases hcase with ⟨_, h2, h3⟩ | ⟨h1, _⟩ | ⟨h1, _⟩
+    · have hm := hn he
+      have e2 : E2n = 2^8 - 1 := by omega
+      have m2 : M2n = 0 := by omega
+      rw [decode_eq_decodeF, decode_eq_decodeF, f1, f2, f3, hsrc.1, hsrc.2.1, hsrc.2.2, he, hm, e2, m2]
+      simp [decodeF, IEEE.single, IEEE.half]
+    · exfalso; apply h1; omega
+    · exfalso; apply h1; omega
+  · intro he
+    rw [hsrc.2.1] at he
+    rcases hcase with ⟨h1, _⟩ | ⟨_, hE0, hM0, h2, h3⟩ | ⟨_, hnz, h2, h3, hv⟩
+    · exfalso; apply he; omega
+    · have e2 : E2n = 0 := by omega
+      have m2 : M2n = 0 := by omega
+      refine ⟨by rw [f2]; omega, ?_⟩
+      rw [decode_eq_decodeF, decode_eq_decodeF, f1, f2, f3, hsrc.1, hsrc.2.1, hsrc.2.2, hE0, hM0, e2, m2]
+      simp [decodeF, IEEE.single, IEEE.half]
+    · refine ⟨by rw [f2]; omega, ?_⟩
+      obtain ⟨x', hx', -, hv'⟩ := fpnum_from_hp_value b (by rw [hsrc.2.1]; exact he)
+      rw [hxfrom] at hx'
+      have : x = x' := Option.some.inj hx'
+      subst this
+      rw [← hv', hv]
+      rw [decode_eq_decodeF, f1, f2, f3]
+      unfold decodeF PyFloat.toRat
+      have c1 : (E2n == 2^IEEE.single.ebits - 1) = false := by simp [IEEE.single]; omega
+      have c2 : (E2n == 0) = false := by simp; omega
+      simp only [c1, c2, Bool.false_eq_true, if_false]
+      have hsg : (if (b / 2^15 % 2 == 1) = true then (-1:Rat) else 1) = (if b / 2^15 % 2 = 0 then 1 else -1 : Rat) := by
+        rcases (show b / 2^15 % 2 = 0 ∨ b / 2^15 % 2 = 1 by omega) with c | c <;> simp [c]
+      rw [hsg]
+      rfl
+/-- **widening half → double is exact**: for every non-NaN half pattern `b`, `FPNum(b,'hp').convert('dp')` is a 64-bit pattern with the
+    same sign bit; infinities map to the infinity of the same sign; every finite `b` maps to a finite pattern denoting the same
+    rational (so ±0 ↦ ±0, and half subnormals become double normals of equal value) -/
+theorem fpnum_widen_hp_dp (b : Nat) (hnan : IEEE.isNaN IEEE.half b = false) :
+    ∃ x, ∃ b2 : Nat, FPNum.from_ieee754 .hp (b : Int) = some x ∧ x.convert .dp = some (b2 : Int) ∧ b2 < 2^64 ∧
+      IEEE.signOf IEEE.double b2 = IEEE.signOf IEEE.half b ∧
+      (IEEE.expOf IEEE.half b = 2^5 - 1 → IEEE.decode IEEE.double b2 = IEEE.decode IEEE.half b) ∧
+      (IEEE.expOf IEEE.half b ≠ 2^5 - 1 → IEEE.expOf IEEE.double b2 ≠ 2^11 - 1 ∧
+          (IEEE.decode IEEE.double b2).toRat = (IEEE.decode IEEE.half b).toRat) := by
+  have hn : b / 2^10 % 2^5 = 31 → b % 2^10 = 0 := isNaN_false IEEE.half b hnan
+  have hsrc : IEEE.signOf IEEE.half b = b / 2^15 % 2 ∧ IEEE.expOf IEEE.half b = b / 2^10 % 2^5 ∧ IEEE.manOf IEEE.half b = b % 2^10 :=
+    ⟨rfl, rfl, rfl⟩
+  obtain ⟨x, E2, M2, hx, hc, hM20, hM21, hcase⟩ := widen_fields 0x1F (-14) 15 1023 0x7FF 10 52 IEEE754_DP_NAN_MANTISA
+    (b / 2^15 % 2) (b / 2^10 % 2^5) (b % 2^10) (by omega) (by omega) (by omega) (by intro h; apply hn; omega)
+    (by decide) (by decide) (by decide) (by decide) (by decide) (by decide)
+  have hxfrom : FPNum.from_ieee754 .hp (b : Int) = some x := by
+    unfold FPNum.from_ieee754 FPNum.from_ieee754_hp unpack_ieee754_hp_parts
+    simp only [shr_nat, shl_one, show ((0x1F:Int)) = (2:Int)^5 - 1 by decide, land_mask_nat, land_one_nat]
+    rw [show ((2:Int)^5 - 1) = (0x1F : Int) by decide, hx]
+  have hE2 : 0 ≤ E2 ∧ E2 ≤ 2047 := by
+    rcases hcase with ⟨_, h, _⟩ | ⟨_, _, _, h, _⟩ | ⟨_, _, h1, h2, _⟩ <;> omega
+  obtain ⟨E2n, rfl⟩ := Int.eq_ofNat_of_zero_le hE2.1
+  obtain ⟨M2n, rfl⟩ := Int.eq_ofNat_of_zero_le hM20
+  have hM2n : M2n < 2^52 := by
+    have : ((M2n : Nat) : Int) < ((2^52 : Nat) : Int) := by simpa using hM21
+    exact Int.ofNat_lt.mp this
+  have hE2n : E2n < 2^11 := by omega
+  have hS : b / 2^15 % 2 < 2 := by omega
+  obtain ⟨f1, f2, f3⟩ := fields_of_dp (b / 2^15 % 2) E2n M2n hS hE2n hM2n
+  refine ⟨x, (b / 2^15 % 2) * 2^63 + E2n * 2^52 + M2n, hxfrom, ?_, by omega, by rw [f1, hsrc.1], ?_, ?_⟩
+  · simp only [FPNum.convert, fmtConsts, shl_one, IEEE754_DP_INF_MANTISA]
+    rw [hc]
+    simp only [Option.map, pack, gen_pack_dp_eq]
+    refine congrArg some ?_
+    omega
+  · intro he
+    rw [hsrc.2.1] at he
+    rcases hcase with ⟨_, h2, h3⟩ | ⟨h1, _⟩ | ⟨h1, _⟩
+    · have hm := hn he
+      have e2 : E2n = 2^11 - 1 := by omega
+      have m2 : M2n = 0 := by omega
+      rw [decode_eq_decodeF, decode_eq_decodeF, f1, f2, f3, hsrc.1, hsrc.2.1, hsrc.2.2, he, hm, e2, m2]
+      simp [decodeF, IEEE.double, IEEE.half]
+    · exfalso; apply h1; omega
+    · exfalso; apply h1; omega
+  · intro he
+    rw [hsrc.2.1] at he
+    rcases hcase with ⟨h1, _⟩ | ⟨_, hE0, hM0, h2, h3⟩ | ⟨_, hnz, h2, h3, hv⟩
+    · exfalso; apply he; omega
+    · have e2 : E2n = 0 := by omega
+      have m2 : M2n = 0 := by omega
+      refine ⟨by rw [f2]; omega, ?_⟩
+      rw [decode_eq_decodeF, decode_eq_decodeF, f1, f2, f3, hsrc.1, hsrc.2.1, hsrc.2.2, hE0, hM0, e2, m2]
+      simp [decodeF, IEEE.double, IEEE.half]
+    · refine ⟨by rw [f2]; omega, ?_⟩
+      obtain ⟨x', hx', -, hv'⟩ := fpnum_from_hp_value b (by rw [hsrc.2.1]; exact he)
+      rw [hxfrom] at hx'
+      have : x = x' := Option.some.inj hx'
+      subst this
+      rw [← hv', hv]
+      rw [decode_eq_decodeF, f1, f2, f3]
+      unfold decodeF PyFloat.toRat
+      have c1 : (E2n == 2^IEEE.double.ebits - 1) = false := by simp [IEEE.double]; omega
+      have c2 : (E2n == 0) = false := by simp; omega
+      simp only [c1, c2, Bool.false_eq_true, if_false]
+      have hsg : (if (b / 2^15 % 2 == 1) = true then (-1:Rat) else 1) = (if b / 2^15 % 2 = 0 then 1 else -1 : Rat) := by
+        rcases (show b / 2^15 % 2 = 0 ∨ b / 2^15 % 2 = 1 by omega) with c | c <;> simp [c]
+      rw [hsg]
+      rfl
+/-- **widening single → double is exact**: for every non-NaN single pattern `b`, `FPNum(b,'sp').convert('dp')` is a 64-bit pattern with the
+    same sign bit; infinities map to the infinity of the same sign; every finite `b` maps to a finite pattern denoting the same
+    rational (so ±0 ↦ ±0, and single subnormals become double normals of equal value) -/
+theorem fpnum_widen_sp_dp (b : Nat) (hnan : IEEE.isNaN IEEE.single b = false) :
+    ∃ x, ∃ b2 : Nat, FPNum.from_ieee754 .sp (b : Int) = some x ∧ x.convert .dp = some (b2 : Int) ∧ b2 < 2^64 ∧
+      IEEE.signOf IEEE.double b2 = IEEE.signOf IEEE.single b ∧
+      (IEEE.expOf IEEE.single b = 2^8 - 1 → IEEE.decode IEEE.double b2 = IEEE.decode IEEE.single b) ∧
+      (IEEE.expOf IEEE.single b ≠ 2^8 - 1 → IEEE.expOf IEEE.double b2 ≠ 2^11 - 1 ∧
+          (IEEE.decode IEEE.double b2).toRat = (IEEE.decode IEEE.single b).toRat) := by
+  have hn : b / 2^23 % 2^8 = 255 → b % 2^23 = 0 := isNaN_false IEEE.single b hnan
+  have hsrc : IEEE.signOf IEEE.single b = b / 2^31 % 2 ∧ IEEE.expOf IEEE.single b = b / 2^23 % 2^8 ∧ IEEE.manOf IEEE.single b = b % 2^23 :=
+    ⟨rfl, rfl, rfl⟩
+  obtain ⟨x, E2, M2, hx, hc, hM20, hM21, hcase⟩ := widen_fields 0xFF (-126) 127 1023 0x7FF 23 52 IEEE754_DP_NAN_MANTISA
+    (b / 2^31 % 2) (b / 2^23 % 2^8) (b % 2^23) (by omega) (by omega) (by omega) (by intro h; apply hn; omega)
+    (by decide) (by decide) (by decide) (by decide) (by decide) (by decide)
+  have hxfrom : FPNum.from_ieee754 .sp (b : Int) = some x := by
+    unfold FPNum.from_ieee754 FPNum.from_ieee754_sp unpack_ieee754_sp_parts
+    simp only [shr_nat, shl_one, show ((0xFF:Int)) = (2:Int)^8 - 1 by decide, land_mask_nat, land_one_nat]
+    rw [show ((2:Int)^8 - 1) = (0xFF : Int) by decide, hx]
+  have hE2 : 0 ≤ E2 ∧ E2 ≤ 2047 := by
+    rcases hcase with ⟨_, h, _⟩ | ⟨_, _, _, h, _⟩ | ⟨_, _, h1, h2, _⟩ <;> omega
+  obtain ⟨E2n, rfl⟩ := Int.eq_ofNat_of_zero_le hE2.1
+  obtain ⟨M2n, rfl⟩ := Int.eq_ofNat_of_zero_le hM20
+  have hM2n : M2n < 2^52 := by
+    have : ((M2n : Nat) : Int) < ((2^52 : Nat) : Int) := by simpa using hM21
+    exact Int.ofNat_lt.mp this
+  have hE2n : E2n < 2^11 := by omega
+  have hS : b / 2^31 % 2 < 2 := by omega
+  obtain ⟨f1, f2, f3⟩ := fields_of_dp (b / 2^31 % 2) E2n M2n hS hE2n hM2n
+  refine ⟨x, (b / 2^31 % 2) * 2^63 + E2n * 2^52 + M2n, hxfrom, ?_, by omega, by rw [f1, hsrc.1], ?_, ?_⟩
+  · simp only [FPNum.convert, fmtConsts, shl_one, IEEE754_DP_INF_MANTISA]
+    rw [hc]
+    simp only [Option.map, pack, gen_pack_dp_eq]
+    refine congrArg some ?_
+    omega
+  · intro he
+    rw [hsrc.2.1] at he
+    rcases hcase with ⟨_, h2, h3⟩ | ⟨h1, _⟩ | ⟨h1, _⟩
+    · have hm := hn he
+      have e2 : E2n = 2^11 - 1 := by omega
+      have m2 : M2n = 0 := by omega
+      rw [decode_eq_decodeF, decode_eq_decodeF, f1, f2, f3, hsrc.1, hsrc.2.1, hsrc.2.2, he, hm, e2, m2]
+      simp [decodeF, IEEE.double, IEEE.single]
+    · exfalso; apply h1; omega
+    · exfalso; apply h1; omega
+  · intro he
+    rw [hsrc.2.1] at he
+    rcases hcase with ⟨h1, _⟩ | ⟨_, hE0, hM0, h2, h3⟩ | ⟨_, hnz, h2, h3, hv⟩
+    · exfalso; apply he; omega
+    · have e2 : E2n = 0 := by omega
+      have m2 : M2n = 0 := by omega
+      refine ⟨by rw [f2]; omega, ?_⟩
+      rw [decode_eq_decodeF, decode_eq_decodeF, f1, f2, f3, hsrc.1, hsrc.2.1, hsrc.2.2, hE0, hM0, e2, m2]
+      simp [decodeF, IEEE.double, IEEE.single]
+    · refine ⟨by rw [f2]; omega, ?_⟩
+      obtain ⟨x', hx', -, hv'⟩ := fpnum_from_sp_value b (by rw [hsrc.2.1]; exact he)
+      rw [hxfrom] at hx'
+      have : x = x' := Option.some.inj hx'
+      subst this
+      rw [← hv', hv]
+      rw [decode_eq_decodeF, f1, f2, f3]
+      unfold decodeF PyFloat.toRat
+      have c1 : (E2n == 2^IEEE.double.ebits - 1) = false := by simp [IEEE.double]; omega
+      have c2 : (E2n == 0) = false := by simp; omega
+      simp only [c1, c2, Bool.false_eq_true, if_false]
+      have hsg : (if (b / 2^31 % 2 == 1) = true then (-1:Rat) else 1) = (if b / 2^31 % 2 = 0 then 1 else -1 : Rat) := by
+        rcases (show b / 2^31 % 2 = 0 ∨ b / 2^31 % 2 = 1 by omega) with c | c <;> simp [c]
+      rw [hsg]
+      rfl
+
+example : (FPNum.from_ieee754 .hp 0x0001).bind (fun x => x.convert .sp) = some 0x33800000 := by decide   -- 2^-24
 
 end C12
